@@ -2,7 +2,8 @@
 (* The files the configuration loading check runs: a small grammar of template files and message definition      *)
 (* files (abstract rows rendered through a header's column order), enumerated completely by TLC.                 *)
 (*   A  one default row + one definition row; every pair of "aspects" (type key, circuit/level, name, comment,    *)
-(*      QQ, ZZ, PBSB/ID, fields) varied together over (default value, row value) combinations                     *)
+(*      QQ, ZZ, PBSB/ID, fields) varied together over (default value, row value) combinations; thorough: triples   *)
+(*      of aspects over core combinations and a second default row in between                                     *)
 (*   O  order of appearance: interleavings of 0-2 default rows and 1-3 definition rows from small pools           *)
 (*   TT template files: all sequences of 0-3 template rows from a pool (plain, divisor, multiplier, value list,   *)
 (*      constant, text, struct, alias, template of template / of struct, struct of templates, undefined type)     *)
@@ -14,7 +15,7 @@
 (*   K  identity: two or three definition rows over (type, circuit, name, QQ, ZZ, ID) incl. case variants          *)
 (*   X  defaults + templates + ZZ lists together                                                                   *)
 (* The token definitions (x_...) are character code sequences generated from the texts in the comments.            *)
-EXTENDS ConfigLoad
+EXTENDS ConfigLoad, TLC
 
 x_r == <<114>>   \* r
 x_r3 == <<114, 51>>   \* r3
@@ -173,10 +174,12 @@ Gg == G(x_g, E, x_UIN, x_p10, x_v, x_k)
 (***************************************************************************)
 BaseD == Row(TRUE, x_r, x_c, E, E, E, E, x_h08, x_b509, x_h0d, <<>>)
 BaseR == Row(FALSE, x_r, E, E, x_a, E, E, E, E, x_h01, <<Gf>>)
-AType == { <<[type |-> x_r], [type |-> x_r]>>, <<[type |-> x_r], [type |-> x_r3]>>, <<[type |-> x_r], [type |-> x_w]>>,
-           <<[type |-> x_w], [type |-> x_w]>>, <<[type |-> x_wi], [type |-> x_wi]>>, <<[type |-> x_wi], [type |-> x_w]>>,
-           <<[type |-> x_u], [type |-> x_u]>>, <<[type |-> x_u], [type |-> x_uw]>>, <<[type |-> x_uw], [type |-> x_uw]>>,
-           <<[type |-> x_r], [type |-> x_rw]>>, <<[type |-> x_r], [type |-> E]>>, <<[type |-> x_r], [type |-> x_R]>> }
+Own == [circuit |-> x_e, zz |-> x_h0a, pbsb |-> x_b510]         \* what a row needs when no default applies to it
+AType == { <<[type |-> x_r], [type |-> x_r]>>, <<[type |-> x_r], [type |-> x_r3]>>, <<[type |-> x_r], [type |-> x_w] @@ Own>>,
+           <<[type |-> x_w], [type |-> x_w]>>, <<[type |-> x_wi], [type |-> x_wi]>>, <<[type |-> x_wi], [type |-> x_w] @@ Own>>,
+           <<[type |-> x_u], [type |-> x_u]>>, <<[type |-> x_u], [type |-> x_uw] @@ Own>>, <<[type |-> x_uw], [type |-> x_uw]>>,
+           <<[type |-> x_r], [type |-> x_rw] @@ Own>>, <<[type |-> x_r], [type |-> E]>>, <<[type |-> x_r], [type |-> x_R]>>,
+           <<[type |-> x_w], [type |-> x_r]>> }
 ACircuit == { <<[circuit |-> x_c], [circuit |-> E]>>, <<[circuit |-> x_c], [circuit |-> x_d]>>, <<[circuit |-> E], [circuit |-> x_d]>>,
               <<[circuit |-> E], [circuit |-> E]>>, <<[circuit |-> x_cLv], [circuit |-> E]>>, <<[circuit |-> x_cLv], [circuit |-> x_d]>>,
               <<[circuit |-> x_cStarE], [circuit |-> x_d]>>, <<[circuit |-> x_cStarE], [circuit |-> E]>>,
@@ -208,6 +211,25 @@ Aspects == <<AType, ACircuit, AName, AComment, AQq, AZz, AId, AFields>>
 FamilyA == UNION { { <<NoTpl, MsgFile(HComment, <<Upd(Upd(BaseD, a[1]), b[1]), Upd(Upd(BaseR, a[2]), b[2])>>)>> : a \in Aspects[i], b \in Aspects[j] }
                    : i \in 1..Len(Aspects), j \in 1..Len(Aspects) }
 (* (i = j gives single aspect variations and, for different a and b, the later update wins: still well-formed rows) *)
+(* thorough: three aspects at once over core combinations, and a second default row of the same or another type     *)
+(* between the default and the definition row                                                                      *)
+Core == << { <<[type |-> x_r], [type |-> x_r3]>>, <<[type |-> x_wi], [type |-> x_wi]>>, <<[type |-> x_u], [type |-> x_u]>>, <<[type |-> x_r], [type |-> x_rw] @@ Own>> },
+           { <<[circuit |-> x_c], [circuit |-> x_d]>>, <<[circuit |-> x_cLv], [circuit |-> E]>>, <<[circuit |-> x_cStarE], [circuit |-> x_d]>> },
+           { <<[name |-> x_xStar], [name |-> x_a]>>, <<[name |-> x_n], [name |-> x_a]>>, <<[name |-> E], [name |-> x_b]>> },
+           { <<[comment |-> x_k], [comment |-> E]>>, <<[comment |-> x_kStar], [comment |-> x_m]>> },
+           { <<[qq |-> x_h10], [qq |-> E]>>, <<[qq |-> x_h10], [qq |-> x_h03]>>, <<[qq |-> E], [qq |-> E]>> },
+           { <<[zz |-> x_z0809], [zz |-> E]>>, <<[zz |-> x_h08], [zz |-> x_z090a]>>, <<[zz |-> x_hfe], [zz |-> E]>>, <<[zz |-> E], [zz |-> E]>> },
+           { <<[pbsb |-> x_b509, id |-> x_h0d], [pbsb |-> E, id |-> x_h01]>>, <<[pbsb |-> x_b509, id |-> E], [pbsb |-> x_b510, id |-> x_h01]>>,
+             <<[pbsb |-> x_b509, id |-> x_h0d], [pbsb |-> E, id |-> x_c0102]>> },
+           { <<[groups |-> <<G(x_x, E, x_UCH, E, E, E)>>], [groups |-> <<Gf>>]>>, <<[groups |-> <<>>], [groups |-> <<Gf, Gg>>]>>,
+             <<[groups |-> <<G(x_x, x_m, x_UCH, E, E, E), G(E, E, x_UIN, E, E, E)>>], [groups |-> <<>>]>> } >>
+SecondDefaults == { Row(TRUE, x_r, E, E, E, E, E, E, E, E, <<>>), Row(TRUE, x_r, x_d, E, E, x_m, E, E, x_b510, E, <<>>),
+                    Row(TRUE, x_w, x_d, E, E, E, E, x_h09, x_b510, x_h0e, <<G(x_x, E, x_UIN, E, E, E)>>) }
+FamilyA3 ==
+  UNION { { <<NoTpl, MsgFile(HComment, <<Upd(Upd(Upd(BaseD, a[1]), b[1]), c[1]), Upd(Upd(Upd(BaseR, a[2]), b[2]), c[2])>>)>> :
+              a \in Core[i], b \in Core[j], c \in Core[k] } : i, j, k \in 1..Len(Core) }
+  \cup UNION { { <<NoTpl, MsgFile(HComment, <<Upd(Upd(BaseD, a[1]), b[1]), d2, Upd(Upd(BaseR, a[2]), b[2])>>)>> :
+                   a \in Core[i], b \in Core[j], d2 \in SecondDefaults } : i, j \in 1..Len(Core) }
 
 (***************************************************************************)
 (* O: order of appearance                                                   *)
@@ -222,7 +244,9 @@ FamilyO(th) ==
   LET P == PoolD(th) \cup PoolR(th)
       maxR == IF th THEN 3 ELSE 2
       seqs == UNION { [1..n -> P] : n \in 1..(maxR + 2) }
-      good(s) == LET nd == Cardinality({k \in 1..Len(s) : s[k].d}) IN nd <= 2 /\ Len(s) - nd \in 1..maxR
+      good(s) == LET nd == Cardinality({k \in 1..Len(s) : s[k].d}) IN
+                 /\ nd <= 2 /\ Len(s) - nd \in 1..maxR
+                 /\ (Len(s) > 3 => \A i, j \in 1..Len(s) : (i # j /\ ~s[i].d /\ ~s[j].d) => s[i] # s[j])   \* longer files: distinct rows
   IN { <<NoTpl, MsgFile(HComment, s)>> : s \in {q \in seqs : good(q)} }
 
 (***************************************************************************)
@@ -265,7 +289,7 @@ TplSets == {
 UseRow(gs) == Row(FALSE, x_r, x_c, E, x_a, E, E, x_h08, x_b509, x_h01, gs)
 FamilyTU(th) ==
   UNION { { <<TplFile(ts[1]), MsgFile(HComment, <<UseRow(<<G(nm, E, ty, dv, un, E)>> \o more)>>)>> :
-              nm \in {E, x_f}, ty \in ts[2] \cup {x_UCH}, dv \in {E, x_p10, x_m10, x_vxy, x_c1} \cup (IF th THEN {x_p1, x_m2} ELSE {}),
+              nm \in {E, x_f}, ty \in ts[2] \cup {x_UCH}, dv \in {E, x_p10, x_m10, x_v2z, x_c1} \cup (IF th THEN {x_p1, x_m2, x_vxy} ELSE {}),
               un \in {E, x_z}, more \in {<<>>, <<Gg>>} \cup (IF th THEN {<<G(E, E, CHOOSE q \in ts[2] : TRUE, E, E, x_m)>>} ELSE {}) }
           : ts \in TplSets }
 
@@ -291,6 +315,8 @@ LayoutLines == {
       \* r,c,a,,,08,b509,01,,,,,,,g,,UCH,,,,,,,,,,h,,UIN        (empty groups in front of and between fields)
   <<x_hashT, <<114,44,99,44,97,44,44,44,48,56,44,98,53,48,57,44,48,49,44,102,44,44,85,67,72,44,44,44,44,44,44,44,44,44,44,44,44>>>>,
       \* r,c,a,,,08,b509,01,f,,UCH,,,,,,,,,,,,                   (trailing empty groups)
+  <<x_hashT, <<32,114,32,44,32,99,44,97,32,44,44,44,32,48,56,44,98,53,48,57,32,32,44,48,49,44,32,102,44,44,32,85,67,72,32,44,32,49,48,32>>>>,
+      \* " r , c,a ,,, 08,b509  ,01, f,, UCH , 10 "               (blanks around cells)
   <<x_hashT, <<114,44,99,44,97,44,44,44,48,56,44,98,53,48,57>>>>,     \* r,c,a,,,08,b509   (no id cell)
   <<x_hashT, <<114,44,99,44,97>>>>,                                    \* r,c,a             (no pbsb)
   <<x_hdrNoGroup, <<114,44,99,44,97,44,48,56,44,98,53,48,57,44,48,49,44,102>>>>,     \* r,c,a,08,b509,01,f   (more cells than columns)
@@ -308,7 +334,7 @@ FamilyH ==
 (* K: identity of messages                                                  *)
 (***************************************************************************)
 KRow(ty, ci, nm, qq, zz, id) == Row(FALSE, ty, ci, E, nm, E, qq, zz, x_b509, id, <<>>)
-KPool == { KRow(ty, ci, nm, qq, zz, id) : ty \in {x_r, x_w, x_u, x_uw}, ci \in {x_c, x_C}, nm \in {x_a, x_b}, qq \in {E, x_h10}, zz \in {x_h08, x_h09},
+KPool == { KRow(ty, ci, nm, qq, zz, id) : ty \in {x_r, x_w, x_u, x_uw}, ci \in {x_c, x_C}, nm \in {x_a, x_A, x_b}, qq \in {E, x_h10}, zz \in {x_h08, x_h09},
                                           id \in {x_h01, x_h02} }
 KFirst == { KRow(ty, x_c, x_a, E, x_h08, x_h01) : ty \in {x_r, x_w, x_u, x_uw} }
 FamilyK(th) ==
@@ -331,9 +357,7 @@ FamilyX(th) ==
       dg \in {<<>>, <<G(x_x, E, x_t, E, E, E)>>, <<G(E, E, x_s, E, E, E)>>},
       rg \in {<<>>, <<G(x_f, E, x_t, x_p10, E, E)>>, <<G(E, x_s, x_s, E, E, E), Gg>>} }
 
-Files(th) == FamilyA \cup FamilyO(th) \cup FamilyTT(th) \cup FamilyTU(th) \cup FamilyP \cup FamilyH \cup FamilyK(th) \cup FamilyX(th)
-FilesQuick == Files(FALSE)
-FilesThorough == Files(TRUE)
-FamilySizes(th) == <<Cardinality(FamilyA), Cardinality(FamilyO(th)), Cardinality(FamilyTT(th)), Cardinality(FamilyTU(th)), Cardinality(FamilyP),
+Files(th) == FamilyA \cup (IF th THEN FamilyA3 ELSE {}) \cup FamilyO(th) \cup FamilyTT(th) \cup FamilyTU(th) \cup FamilyP \cup FamilyH \cup FamilyK(th) \cup FamilyX(th)
+FamilySizes(th) == <<Cardinality(FamilyA \cup (IF th THEN FamilyA3 ELSE {})), Cardinality(FamilyO(th)), Cardinality(FamilyTT(th)), Cardinality(FamilyTU(th)), Cardinality(FamilyP),
                      Cardinality(FamilyH), Cardinality(FamilyK(th)), Cardinality(FamilyX(th))>>
 =============================================================================
